@@ -51,7 +51,7 @@ def option_sets(rng, n_random):
     # -d (graph drawing through an external program) is left out: none of the properties reads it
     sets = [[]] + [[o] for o in FILE_OPTS] + [["-e"], ["-a"], ["-f"]]
     sets += [["-f", "--stems-csv"], ["-f", "-p", "-b"], ["-f", "-c", "-j"]]   # gap detection with the outputs that use positions
-    sets += [["-a", "-f"], ["-a", "-b", "-j"]]
+    sets += [["-a", "-f"], ["-a", "-b", "-j"], ["-a", "-d"], ["-f", "--inter-stem-csv", "-j"]]
     sets += [list(p) for p in itertools.combinations(FILE_OPTS, 2)]
     for _ in range(n_random):
         s = [o for o in FILE_OPTS if rng.random() < 0.5]
@@ -89,6 +89,43 @@ def inputs(ctx):
     for k in range(ctx.pick(2, 8)):
         st = g3.stack_random(rng)
         out.append(("two-stacked-residues", pdb_text(st, rng.choice([None, 1, 2])), ".pdb"))
+    if frag is not None:
+        out += two_helices(ctx, frag)
+    return out
+
+
+def two_helices(ctx, frag):
+    """a helix of the fragment and a rigidly moved copy of it (chain B) whose chosen end sits 3-7 A off a chosen end of the
+    original, in a random orientation: every endpoint arrangement (cs55 / cs53 / cs35 / cs33) and every inter-stem torsion
+    occurs, among them arrangements the library rates as coaxial"""
+    import numpy as np
+    from rnapolis.annotator import extract_secondary_structure
+    from rnapolis.tertiary import Mapping2D3D
+    rng = ctx.rng
+    try:
+        s2, _ = extract_secondary_structure(frag, None, False, False)
+        mp = Mapping2D3D(frag, s2.baseInteractions.basePairs, s2.baseInteractions.stackings, False)
+        stems = [st for st in s2.stems if st.strand5p.last - st.strand5p.first + 1 >= 3]
+        if not stems:
+            return []
+        st = stems[0]
+        n = st.strand5p.last - st.strand5p.first + 1
+        pairs = [(mp.bpseq_index_to_residue_map[st.strand5p.first + i], mp.bpseq_index_to_residue_map[st.strand3p.last - i]) for i in range(n)]
+    except Exception:  # noqa: BLE001
+        return []
+    helix = [a for a, _ in pairs] + [b for _, b in reversed(pairs)]
+    cen = [np.mean([[x.x, x.y, x.z] for r in pr for x in r.atoms], axis=0) for pr in pairs]
+    out = []
+    for _ in range(ctx.pick(96, 600)):
+        e1, e2 = (-1, -1) if rng.random() < 0.4 else (rng.choice([0, -1]), rng.choice([0, -1]))
+        axis = cen[e1] - cen[e1 + 1 if e1 == 0 else e1 - 1]
+        axis = axis / np.linalg.norm(axis)
+        R = g3.quat_rotation(rng)
+        target = cen[e1] + rng.uniform(3.0, 7.0) * axis
+        move = lambda p: R @ (p - cen[e2]) + target  # noqa: E731
+        copy = g3.map_coords(g3.mk_structure([g3.renumber(r, "B", (r.number or 0) + 100, r.icode) for r in helix]), move)
+        both = g3.mk_structure([g3.renumber(r, "A", r.number, r.icode) for r in helix] + list(copy.residues))
+        out.append(("two-helices", pdb_text(both), ".pdb"))
     return out
 
 
@@ -140,10 +177,14 @@ def _one(job):
         stk = A.find_stackings(s3, None)
         fp = A.find_pairs(s3, None)[0]
         s2, dbs = A.extract_secondary_structure(s3, None, fg, alldb)
+        plain = A.extract_secondary_structure(s3, None, fg, False)[0] if alldb else s2
+        other = A.extract_secondary_structure(s3, None, not fg, False)[0]
+        inter = lambda x: [(p.stem1_idx, p.stem2_idx, p.type, p.torsion) for p in (x.interStemParameters or [])]  # noqa: E731
         letters = {r.full_name: r.one_letter_name for r in s3.residues}
         return {"csv": expected_csv(bi), "json": expected_json(bi),
                 "stackings": sorted((p.nt1.full_name, p.nt2.full_name, p.topology.value if p.topology is not None else None) for p in stk),
                 "pairs": sorted((p.nt1.full_name, p.nt2.full_name, p.lw.value) for p in fp),
+                "dot_noall": plain.dotBracket, "inter": inter(s2), "inter_other_gaps": inter(other), "nstems_other_gaps": len(other.stems),
                 "bpseq": s2.bpseq, "dot": s2.dotBracket, "ext": s2.extendedDotBracket, "all": list(dbs), "nstems": len(s2.stems),
                 "ninter": len(s2.interStemParameters or []), "letters": letters}
     with contextlib.redirect_stdout(io.StringIO()), contextlib.redirect_stderr(io.StringIO()):
@@ -161,9 +202,11 @@ def evaluate(ctx):
     osets = option_sets(ctx.rng, ctx.pick(6, 40))
     for tag, text, suffix in inputs(ctx):
         chosen = osets if (tag.startswith("fragment:model") or tag in ("two-stacked-residues", "fragment:chain-break") or not ctx.quick) else \
-            osets[:15] + ctx.rng.sample(osets[15:], 6)
+            osets[:17] + ctx.rng.sample(osets[17:], 6)
         if tag.startswith("corpus:") and ctx.quick:
-            chosen = osets[:15]
+            chosen = osets[:17]
+        if tag == "two-helices":
+            chosen = [["--inter-stem-csv", "-j"]]
         for flags in chosen:
             jobs.append((text, suffix, flags))
             tags.append(tag)
@@ -186,9 +229,9 @@ def judge(res, prop, runs):
             # only what the property speaks about is judged: a tool that ends abnormally is reported when an output this
             # property reads (JSON / CSV; for C07 also BPSEQ and stems CSV) was asked for and is not there
             res.count("cli:main-%s" % o["main"].split(":")[0])
-            reads = {"C07": ("-b", "--stems-csv"), "C06": ("-b",), "C16": ()}.get(prop, ("-c", "-j"))
+            reads = {"C07": ("-b", "--stems-csv"), "C06": ("-b",), "C16": (), "C18": ("--inter-stem-csv",), "C02": ("-j",)}.get(prop, ("-c", "-j"))
             need = [x for x in reads if x in flags and "file:" + x not in o]
-            if need and not (prop == "C07" and need == ["--stems-csv"] and not lib["nstems"]):
+            if need and not (prop == "C07" and need == ["--stems-csv"] and not lib["nstems"]) and not (prop == "C18" and not lib["inter"]):
                 res.fail("spec", "%s:cli:main-%s" % (prop, o["main"].split(":")[0] + ":" + o["main"].split(":")[-1]), inp,
                          "annotator.main ended with %s before writing %s, although the library annotates the file" % (o["main"], need))
                 continue
@@ -223,8 +266,32 @@ def judge(res, prop, runs):
                          "JSON lists %d base pairs, find_pairs on the structure the reader returns %d; missing %s, extra %s"
                          % (len(got), len(lib["pairs"]), [x for x in lib["pairs"] if x not in got][:3], [x for x in got if x not in lib["pairs"]][:3]))
         if prop == "C16" and "-a" in flags and "-e" not in flags:
-            if "\n".join(lib["all"]).strip() not in o["stdout"]:
-                res.fail("spec", "C16:cli:printed-list-differs", inp, "the list printed with -a is not the library's list of all dot-brackets (in order)")
+            want = [l for m in lib["all"] for l in m.splitlines()]
+            printed = o["stdout"].splitlines()
+            if printed[:len(want)] != want:
+                res.fail("spec", "C16:cli:printed-list-differs", inp, "the lines printed with -a are not the library's list of all dot-brackets, member by member "
+                         "(first difference at line %d: %r)" % (next((k for k, (a, b) in enumerate(zip(printed, want)) if a != b), min(len(printed), len(want))),
+                                                                printed[next((k for k, (a, b) in enumerate(zip(printed, want)) if a != b), 0)][:80] if printed else None))
+        if prop == "C02" and js is not None and "-a" in flags:
+            if js.get("dotBracket") != lib["dot_noall"]:
+                res.fail("spec", "C02:cli:notation-under-all-dot-brackets", inp,
+                         "with -a the JSON carries %r as THE dot-bracket, without -a the library gives %r" % (str(js.get("dotBracket"))[-80:], lib["dot_noall"][-80:]))
+        if prop == "C18":
+            if "--inter-stem-csv" in flags and "file:--inter-stem-csv" in o:
+                rd = list(csv.DictReader(io.StringIO(o["file:--inter-stem-csv"], newline="")))
+                got = [(int(r["stem1_idx"]), int(r["stem2_idx"]), r["type"], float(r["torsion"])) for r in rd]
+                if len(got) != len(lib["inter"]) or any(a[:3] != b[:3] or abs(a[3] - b[3]) > 1e-9 for a, b in zip(got, lib["inter"])):
+                    res.fail("spec", "C18:cli:inter-stem-csv-differs-from-library", inp, "inter-stem CSV %s, library %s" % (got[:3], lib["inter"][:3]))
+                if any(not (-180.0 < t[3] <= 180.0) for t in got):
+                    res.fail("spec", "C18:cli:inter-stem-torsion-out-of-range", inp, "torsion outside (-180, 180]: %s" % [t for t in got if not (-180.0 < t[3] <= 180.0)][:3])
+            if lib["nstems"] == lib["nstems_other_gaps"] and len(lib["inter"]) == len(lib["inter_other_gaps"]):
+                # placeholders for missing residues shift BPSEQ positions, not stems: the torsion between two stems is the same
+                # with and without gap detection
+                for a, b in zip(lib["inter"], lib["inter_other_gaps"]):
+                    if a[:3] == b[:3] and abs(a[3] - b[3]) > 1e-9:
+                        res.fail("spec", "C18:inter-stem-torsion-depends-on-gap-detection", inp,
+                                 "stems %d/%d (%s): torsion %.6f with find_gaps=%s, %.6f with find_gaps=%s" % (a[0], a[1], a[2], a[3], "-f" in flags, b[3], "-f" not in flags))
+                        break
         if prop == "C11":
             if js is not None and js.get("baseInteractions") != lib["json"]:
                 res.fail("spec", "C11:cli:json-differs-from-lists", inp, "baseInteractions of the JSON file are not the library's interaction lists")
